@@ -2093,3 +2093,11 @@ breaker('C09', 'index-tid-not-compared', 'C09.R7', FSPY,
 twin('C09', 'index-tid-subscript-form', FSPY, 'FileStorage._restore_index',
      "        saved_tid = info.get('tid')",
      "        saved_tid = info['tid'] if 'tid' in info else None")
+breaker('C08', 'blob-sweep-ignores-cutoff', 'C08.R9', BLOBPY,
+        'BlobStorage._blob_sweep_files',
+        'if serial is not None and serial > cutoff:',
+        'if serial is None:')
+twin('C08', 'blob-sweep-cutoff-flipped', BLOBPY,
+     'BlobStorage._blob_sweep_files',
+     'if serial is not None and serial > cutoff:',
+     'if serial is not None and cutoff < serial:')
